@@ -1,6 +1,6 @@
 (* C17 -- the driver payload frames the command stream correctly.  Statements only. *)
 From Coq Require Import ZArith List Bool.
-From VV Require Import gen.GenTables gen.GenDriver model.Driver proofs.DriverProofs.
+From VV Require Import gen.GenTables gen.GenDriver gen.GenGuards model.Driver proofs.DriverProofs.
 Import ListNotations.
 Open Scope Z_scope.
 
@@ -28,6 +28,17 @@ Theorem payload_rejects :
   forall cfg idw ws, 2^24 <= Z.of_nat (List.length ws) -> payload_bytes cfg idw ws = None.
 Proof. exact payload_rejects_lemma. Qed.
 
+(* the hardware limit: generate_command_stream (its guard and the emitter's size function as recognised in the source on
+   this run, gen/GenGuards.v) raises exactly for streams of 16 MiB = 2^22 words or more, whatever the words are *)
+Theorem stream_size_is_four_bytes_per_word :
+  forall cmds, emitter_size_in_bytes cmds = 4 * Z.of_nat (List.length (emitter_to_list cmds)).
+Proof. exact emitter_size_is_4_words_lemma. Qed.
+
+Theorem hardware_limit_rejects_from_16MiB :
+  forall cmds, hw_limit_guard (emitter_size_in_bytes cmds) = true <-> 2 ^ 22 <= Z.of_nat (List.length (emitter_to_list cmds)).
+Proof. exact hw_limit_guard_spec_lemma. Qed.
+
 Print Assumptions payload_parses.
 Print Assumptions payload_rejects.
 Print Assumptions gen_emit_cmd_stream_header_is_model.
+Print Assumptions hardware_limit_rejects_from_16MiB.
